@@ -27,7 +27,8 @@ def plan(prop, tier, models):
                 # incomplete before); bound 1 completes, bound 2-3 is the thorough tier
                 b = [(2, 30)] if threads <= 4 else [(1, 30)]
             else:  # c16
-                b = [(2, 50)]
+                # three claimers on the retry scripts: thorough only
+                b = [] if ("claimers3" in mid and "retry" in mid) else [(2, 50)]
         else:
             if mid.startswith("c17-wait"):
                 b = [(None, 600)]
